@@ -1,4 +1,10 @@
-import Model.Base.Proto
+import Model.Proc.ProjProto
 
-/-- stub: replaced when the property's driver is built -/
-def main : IO Unit := pure ()
+/-- C08 driver: reads the harness output, prints the model's `obs` lines and the
+specification's `spec` lines for every `case` line. -/
+def main : IO Unit := do
+  let stdin ← IO.getStdin
+  let stdout ← IO.getStdout
+  Proto.forEachLine stdin fun s => do
+    for l in Proc.ProjProto.handle (Proto.parseLine s) do
+      stdout.putStrLn l
